@@ -136,7 +136,14 @@ class HistogramBase(abc.ABC):
         keep_missed : If True, keep information about bins that did not hit any bin
 
         """
-        self._binnings = [as_binning(binning) for binning in binnings]
+        # Adaptive binnings change in place when their histogram grows, they must not be shared
+        self._binnings = [
+            as_binning(
+                binning,
+                copy=isinstance(binning, BinningBase) and binning.is_adaptive(),
+            )
+            for binning in binnings
+        ]
 
         new_kwargs = self.default_init_values.copy()
         new_kwargs.update(kwargs)
